@@ -85,6 +85,10 @@ def catalogue(tier: str) -> list[dict]:
          'FrozenParameterGate(CUGate(), {2: 0.25, 0: 0.5, 1: 0.75})',
          'EmbeddedGate(RXGate(), 3, [0, 1])', 'EmbeddedGate(RYGate(), 3, [0, 2])',
          'EmbeddedGate(U3Gate(), 4, [1, 3])', 'EmbeddedGate(CRXGate(), [3, 3], [[0, 1], [0, 2]])',
+         # multi-qudit embeddings into NON-UNIFORM target radixes (index flattening is radix-order sensitive)
+         'EmbeddedGate(CNOTGate(), [2, 3], [[0, 1], [0, 2]])', 'EmbeddedGate(CRXGate(), [3, 4], [[0, 2], [1, 3]])',
+         'EmbeddedGate(CZGate(), [3, 2], [[1, 2], [0, 1]])', 'EmbeddedGate(RZZGate(), [4, 3], [[3, 0], [2, 1]])',
+         'EmbeddedGate(CCXGate(), [2, 3, 4], [[0, 1], [1, 2], [0, 3]])',
          'DaggerGate(ControlledGate(RXGate()))', 'ControlledGate(DaggerGate(RYGate()))',
          'PowerGate(DaggerGate(RZGate()), 2)']
     if tier == 'thorough':
